@@ -48,7 +48,7 @@ class World(object):
                 if ex is not None and id(obj) in ex.shared:
                     ex.s.announce(("Rd", self.tag))
                     v = obj.__dict__[self.name]
-                    ex.on_read(self.tag, v)
+                    ex.on_read(self.tag, v, obj)
                     return v
                 try:
                     return obj.__dict__[self.name]
@@ -59,7 +59,7 @@ class World(object):
                 ex = world.cur
                 if ex is not None and id(obj) in ex.shared and ex.s.controlled():
                     ex.s.announce(("Wr", self.tag))
-                    ex.on_write(self.tag, value)
+                    ex.on_write(self.tag, value, obj)
                 obj.__dict__[self.name] = value
 
         for name, tag in self.fields.items():
@@ -184,7 +184,7 @@ class Execution(object):
         self.s.spawn(ti, body)
 
     # ---- monitor
-    def on_read(self, tag, v):
+    def on_read(self, tag, v, obj=None):
         t = self.s.controlled()
         if tag == "coords":
             ok = isinstance(v, tuple) and len(v) == 3 and self.w.affine_of(v) == self.w.base
@@ -198,7 +198,7 @@ class Execution(object):
             self.problems.append("thread %s read a partially updated %s: %r" % (t, tag, v if tag == "coords" else
                                                                                  "table of %s entries" % vid[1]))
 
-    def on_write(self, tag, v):
+    def on_write(self, tag, v, obj=None):
         pass
 
     def close(self):
@@ -380,3 +380,248 @@ def preemption_sweep(args):
                 break
             k += 1
     return execs, steps, problems
+
+
+# ------------------------------------------------------------------------------------------------
+# keys: several shared objects (the key's reference to its point, that point, swapped-in points, the generator)
+
+KEY_OPS = ["verify", "to_string", "precompute_lazy", "precompute", "sign", "vk_eq", "verify2"]
+D_KEY, K_NONCE = 77, 5
+DIGEST = b"\x21\x43"
+
+
+class KeyWorld(object):
+    def __init__(self, w):
+        self.w = w
+        ecdsa = w.ecdsa
+        from ecdsa import ecdsa as ecmod, curves, SigningKey, VerifyingKey, util
+        self.ecmod, self.curves, self.SK, self.VK, self.util = ecmod, curves, SigningKey, VerifyingKey, util
+        p, a, b, n, G, h = toy.params(CID)
+        self.G = G
+        self.Q = toy.t_mul(D_KEY, G, p, a)
+        self.cur = None
+        kw = self
+
+        class Ref(object):
+            def __get__(self, obj, objtype=None):
+                if obj is None:
+                    return self
+                ex = kw.cur
+                if ex is not None and id(obj) == ex.pk_id and ex.s.controlled():
+                    ex.s.announce(("Rd", "ref"))
+                    v = obj.__dict__["point"]
+                    ex.log_access("R", "ref", 0, ex.index_of(v))
+                    return v
+                return obj.__dict__["point"]
+
+            def __set__(self, obj, value):
+                ex = kw.cur
+                if ex is not None and id(obj) == ex.pk_id and ex.s.controlled():
+                    ex.s.announce(("Wr", "ref"))
+                    ix = ex.register(value)
+                    ex.log_access("W", "ref", 0, ix)
+                obj.__dict__["point"] = value
+
+        ecmod.Public_key.point = Ref()
+        # expected complete tables
+        def full_table(pt):
+            g = w.PJ(w.cf, pt[0], pt[1], 1, n, generator=True)
+            g * 2
+            return [tuple(e) for e in g.__dict__[[k for k, t in w.fields.items() if t == "table"][0]]]
+        self.tables = {"G": full_table(G), "Q": full_table(self.Q)}
+
+
+class KeyExecution(object):
+    """Threads operating on one shared VerifyingKey (and, for signing, the curve's generator)."""
+
+    def __init__(self, kw, progs, q_scaled, g_empty):
+        self.kw, self.w = kw, kw.w
+        w = self.w
+        self.s = sched.Sched()
+        self.progs = progs
+        p, a, b, n = w.p, w.a, toy.params(CID)[2], w.n
+        gen = w.PJ(w.cf, kw.G[0], kw.G[1], 1, n, generator=True)
+        self.curve = kw.curves.Curve("keythreads", w.cf, gen, (1, 3, 9999, 3, 1), None)
+        self.sk = kw.SK.from_secret_exponent(D_KEY, self.curve)       # builds the generator's table
+        tname = [k for k, t in w.fields.items() if t == "table"][0]
+        if g_empty:
+            gen.__dict__[tname] = []                                    # first use of the generator happens in the threads
+        x, y = kw.Q
+        z = 1 if q_scaled else 5
+        P0 = w.PJ(w.cf, x * z * z % p, y * z * z * z % p, z, n)
+        self.vk = kw.VK.from_public_point(P0, self.curve, validate_point=False)
+        self.vk2 = kw.VK.from_public_point(w.PJ(w.cf, x, y, 1, n), self.curve, validate_point=False)
+        self.sig = self.sk.sign_digest(DIGEST, k=K_NONCE, allow_truncate=True)
+        if g_empty:
+            gen.__dict__[tname] = []
+        self.pk_id = id(self.vk.pubkey)
+        self.objs = {id(P0): (0, "Q"), id(gen): (8, "G")}
+        self.keep = [P0, gen]                 # strong references: ids must not be reused
+        self.shared = set(self.objs)
+        self.next_ix = 1
+        self.problems = []
+        self.in_snap = False
+        self.reads = {}
+        self.log = []
+        w.cur = self
+        kw.cur = self
+        for ti, prog in enumerate(progs, 1):
+            self._spawn(ti, prog)
+
+    def register(self, pt):
+        if id(pt) not in self.objs:
+            self.objs[id(pt)] = (self.next_ix, "Q")
+            self.keep.append(pt)
+            self.shared.add(id(pt))
+            self.next_ix += 1
+        return self.objs[id(pt)][0]
+
+    def index_of(self, pt):
+        return self.objs.get(id(pt), (-1, "?"))[0]
+
+    def log_access(self, kind, field, p, v):
+        t = self.s.controlled()
+        self.log.append({"kind": kind, "field": field, "p": p, "v": v if field != "ref" else v, "t": t})
+        if kind == "R":
+            self.reads.setdefault(t, []).append((field, p, v))
+
+    def classify(self, tag, v, which):
+        w = self.w
+        pt = self.kw.G if which == "G" else self.kw.Q
+        if tag == "coords":
+            if isinstance(v, tuple) and len(v) == 3 and w.affine_of(v) == pt:
+                return "s" if v[2] == 1 else "o"
+            return "bad"
+        ent = [tuple(e) for e in v] if isinstance(v, list) else None
+        if ent == []:
+            return "empty"
+        return "full" if ent == self.kw.tables[which] else "part"
+
+    def on_read(self, tag, v, obj=None):
+        ix, which = self.objs.get(id(obj), (-1, "Q"))
+        cls = self.classify(tag, v, which)
+        self.log_access("R", tag, ix, cls)
+        if cls in ("bad", "part"):
+            self.problems.append("thread %s read a partially updated %s of shared point %d" % (self.s.controlled(), tag, ix))
+
+    def on_write(self, tag, v, obj=None):
+        ix, which = self.objs.get(id(obj), (-1, "Q"))
+        self.log_access("W", tag, ix, self.classify(tag, v, which))
+
+    def _spawn(self, ti, prog):
+        def body():
+            out = []
+            for op in prog:
+                out.append(self.run_op(op))
+            return out
+        self.s.spawn(ti, body)
+
+    def run_op(self, op):
+        vk = self.vk
+        if op in ("verify", "verify2"):
+            try:
+                return vk.verify_digest(self.sig, DIGEST, allow_truncate=True)
+            except Exception as e:  # noqa
+                return type(e).__name__
+        if op == "to_string":
+            return vk.to_string("compressed") + vk.to_string()
+        if op == "precompute_lazy":
+            vk.precompute(lazy=True)
+            return None
+        if op == "precompute":
+            vk.precompute()
+            return None
+        if op == "sign":
+            return self.sk.sign_digest(DIGEST, k=K_NONCE + 1, allow_truncate=True)
+        if op == "vk_eq":
+            return vk == self.vk2
+        raise ValueError(op)
+
+    def close(self):
+        self.w.cur = None
+        self.kw.cur = None
+
+    def enabled(self):
+        return [t for t, st in sorted(self.s.ts.items()) if not st.finished and st.pending is not None]
+
+    def key(self):
+        regs = []
+        tname = [k for k, t in self.w.fields.items() if t == "table"][0]
+        cname = [k for k, t in self.w.fields.items() if t == "coords"][0]
+        for o in self.keep:
+            regs.append((self.objs[id(o)][0], repr(o.__dict__[cname]), len(o.__dict__[tname])))
+        ref = self.index_of(self.vk.pubkey.__dict__["point"])
+        return (tuple(regs), ref, tuple((t, tuple(self.reads.get(t, ())), repr(self.s.ts[t].pending)[:40]) for t in sorted(self.s.ts)))
+
+    def finish_check(self, expected):
+        out = list(self.problems)
+        for t, st in sorted(self.s.ts.items()):
+            if st.exc:
+                out.append("thread %s (%s) raised %s because of the interleaving" % (t, self.progs[t - 1], st.exc[0]))
+            elif st.result != expected[t - 1]:
+                out.append("thread %s (%s) returned %r, sequentially it returns %r" % (t, self.progs[t - 1], st.result, expected[t - 1]))
+        return out
+
+
+_kw = []
+
+
+def keyworld():
+    if not _kw:
+        _kw.append(KeyWorld(world()))
+    return _kw[0]
+
+
+def explore_keys(args):
+    """Every schedule of the real code for one combination of key operations (state caching as in explore); returns
+    the access logs of the executed schedules for validation against KeyThreads.tla."""
+    progs, q_scaled, g_empty, cap = args
+    kw = keyworld()
+    # sequential expectation: each program alone
+    expected = []
+    for prog in progs:
+        ex = KeyExecution(kw, [prog], q_scaled, g_empty)
+        try:
+            while ex.enabled():
+                ex.s.step(1)
+            expected.append(ex.s.ts[1].result)
+        finally:
+            ex.close()
+    seen = set()
+    stack = [[]]
+    execs = steps = 0
+    problems, logs = [], []
+    while stack and execs < cap and len(problems) < 5:
+        prefix = stack.pop()
+        ex = KeyExecution(kw, progs, q_scaled, g_empty)
+        execs += 1
+        try:
+            for t in prefix:
+                ex.s.step(t)
+                steps += 1
+            while True:
+                en = ex.enabled()
+                if not en:
+                    for pr in ex.finish_check(expected):
+                        problems.append({"schedule": list(prefix), "what": pr})
+                    break
+                k = ex.key()
+                if k in seen:
+                    for pr in ex.problems:
+                        problems.append({"schedule": list(prefix), "what": pr})
+                    break
+                seen.add(k)
+                for alt in en[1:]:
+                    stack.append(prefix + [alt])
+                prefix = prefix + [en[0]]
+                ex.s.step(en[0])
+                steps += 1
+            if len(logs) < 40:
+                logs.append([{"kind": "reset", "field": "-", "p": 0, "v": "-", "k": 0}] +
+                            [{"kind": e["kind"], "field": e["field"], "p": max(e["p"], 0) if e["field"] != "ref" else 0,
+                              "v": e["v"] if e["field"] != "ref" else "-", "k": e["v"] if e["field"] == "ref" else 0} for e in ex.log])
+        except sched.SchedulerStuck as e:
+            problems.append({"schedule": list(prefix), "what": "execution stuck: %s" % e})
+        finally:
+            ex.close()
+    return execs, steps, len(seen), problems, not stack, logs
